@@ -118,7 +118,9 @@ def oracleLine (toks : List String) : String :=
       let fmtV (l : List (Nat × Ref.Viol)) : String := match l.reverse with
         | [] => "ok"
         | (i, v) :: _ => "FAIL:" ++ san s!"instr#{i}:{at_ i}:{reprStr v}:total={l.length}:in_the_decodable_prefix"
-      s!"oracle id={id} gen=ok len={out.length} n={pre.length} C04=FAIL:lex:{san (reprStr e)} C01={c01} C02={fmtV rr.memoV} C03={fmtV rr.typedV}"
+      -- bytes after STOP: the stream up to STOP is complete, so FRAME can be judged against the whole output
+      let c06 := if e == Lex.Err.trailing then verdict (Spec.frameOk c.version out pre) "frame_length_does_not_span_the_rest_of_the_output" else "ok"
+      s!"oracle id={id} gen=ok len={out.length} n={pre.length} C04=FAIL:lex:{san (reprStr e)} C01={c01} C02={fmtV rr.memoV} C03={fmtV rr.typedV} C06={c06}"
     | .ok is =>
       let rr := runIdx is
       let hist := Op.all.filterMap (fun o =>
